@@ -6,8 +6,10 @@ Obligations: coq/Props/C08.v (models Model/Collator.v, Model/SortKeys.v).
 Check =
 (t) tables: the keyword -> measure tables of matrix/assembler.py::_BaseOrderHelper._measure,
     _SortRowsByMarginalHelper._marginal, stripe/assembler.py::_SortByMeasureHelper._measure and the
-    MEASURE / MARGINAL enumerations are read from the source text (ast) and must equal the tables of
-    Model/SortKeys.v (rendered by Coq);
+    MEASURE / MARGINAL enumerations are read from the source text by the source translator
+    (harness/translate/x_assemble.py -> Gen/SortTablesSrc.v; obligation C08_gen_sort_tables: lookup equality
+    with Model/SortKeys.v for every keyword string) - the same reader gives this check its keyword lists,
+    and the tables are also compared with the model's (rendered by Coq) so that a difference is named;
 (a) correspondence: the model of the order helpers (dispatch on "type", key resolution, fallback,
     SortByValueCollator) is run in Coq on the exact PUBLIC values of the measure the transform names
     (floats of an untransformed run as exact rationals) and compared with row_order()/column_order()
@@ -27,13 +29,10 @@ Check =
     public value NaN) leaves body and subtotal group in payload order; a directed stream generates both
     situations in every run.
 """
-import ast
 import copy
-import inspect
 import json
 import math
 import random
-import textwrap
 
 import numpy as np
 
@@ -61,56 +60,18 @@ ALL_TYPES = ("opposing_element", "opposing_insertion", "label", "marginal", "uni
 # ------------------------------------------------------------------------------------
 
 
-def _dict_in_method(cls, method, enum_cls=None):
-    """The first big dict literal inside `cls.method` as [(key, value)] with enum members resolved."""
-    tree = ast.parse(textwrap.dedent(inspect.getsource(cls)))
-    for node in ast.walk(tree):
-        if isinstance(node, ast.FunctionDef) and node.name == method:
-            for sub in ast.walk(node):
-                if isinstance(sub, ast.Dict) and len(sub.keys) >= 3:
-                    out = []
-                    for k, v in zip(sub.keys, sub.values):
-                        if not (isinstance(v, ast.Constant) and isinstance(v.value, str)):
-                            return None
-                        if isinstance(k, ast.Constant) and isinstance(k.value, str):
-                            key = k.value
-                        elif isinstance(k, ast.Attribute) and enum_cls is not None:
-                            key = enum_cls[k.attr].value
-                        else:
-                            return None
-                        out.append((key, v.value))
-                    return out
-    return None
-
-
 def source_tables():
-    """keyword tables as the source says; None entries when the text cannot be read"""
-    from cr.cube.enums import MARGINAL, MEASURE
-    from cr.cube.matrix import assembler as ma
-    from cr.cube.stripe import assembler as sa
+    """keyword tables as the SOURCE TEXT says (None entries when it cannot be read): read by the source
+    translator harness/translate/x_assemble.py - the same reader that emits Gen/SortTablesSrc.v, whose
+    agreement with Model/SortKeys.v for every keyword string is the proof obligation C08_gen_sort_tables;
+    this check no longer parses the assemblers itself.  The comparison below stays as the leg that names
+    the differing rows."""
+    from harness.translate import x_assemble
 
-    def dedup(pairs):
-        if pairs is None:
-            return None
-        d = {}
-        for k, v in pairs:
-            d[k] = v
-        return d
-
-    def guarded(f):
-        try:
-            return f()
-        except Exception:            # noqa  (source restructured: report, do not crash)
-            return None
-
-    return {
-        "measure_enum": guarded(lambda: [m.value for m in MEASURE]),
-        "marginal_enum": guarded(lambda: [m.value for m in MARGINAL]),
-        "matrix": guarded(lambda: dedup(_dict_in_method(ma._BaseOrderHelper, "_measure", MEASURE))),
-        "marginal": guarded(lambda: dedup(_dict_in_method(ma._SortRowsByMarginalHelper, "_marginal",
-                                                          MARGINAL))),
-        "strand": guarded(lambda: dedup(_dict_in_method(sa._SortByMeasureHelper, "_measure"))),
-    }
+    try:
+        return x_assemble.read_tables(core.REPO_SRC)
+    except Exception:            # noqa  (a bug of the reader: report as unreadable, do not crash)
+        return {"measure_enum": None, "marginal_enum": None, "matrix": None, "marginal": None, "strand": None}
 
 
 def model_tables():
@@ -840,6 +801,12 @@ def oracle(v, obs, strand):
     base_vals, sub_vals = exp[1], exp[2]
     if len(base_vals) != v.n or len(sub_vals) != v.nsub:
         return ("skip", "value-vector-length"), fails
+    # the order must name existing vectors (C05 owns range / duplicates in general; here an index
+    # outside -n_subtotals .. n_elements-1 would make the value look-ups below meaningless)
+    if any(not isinstance(z, int) or isinstance(z, bool) or not (-v.nsub <= z < v.n) for z in order):
+        fails.append(("sorted-order-out-of-range",
+                      {"order": order, "n_elements": v.n, "n_subtotals": v.nsub}, "range"))
+        return exp, fails
     # same vectors as without the order transform
     if pay[0] == "ok" and sorted(order) != sorted(pay[1]):
         fails.append(("members", {"order": order, "payload_order": pay[1]}, "members"))
